@@ -11,7 +11,9 @@ SPECIFICATION Spec
 INVARIANT GTypeOK
 INVARIANT ImplRefines
 INVARIANT LastWins
+INVARIANT StmtFoldIsRefMap
 INVARIANT ValidIffSig
 INVARIANT NonStatusIgnored
+INVARIANT EmitPal
 INVARIANT EmitCase
 CHECK_DEADLOCK FALSE
